@@ -379,15 +379,8 @@ func (db *Database) processPostingsForTerm(
 	for _, p := range postings {
 		doc := &db.Commands[p.docID]
 
-		// Platform filtering (skip if AllPlatforms is enabled)
-		if !options.AllPlatforms && len(doc.Platform) > 0 {
-			if !isPlatformCompatible(doc.Platform, currentPlatform) && !isCrossPlatformTool(doc.Command) {
-				continue
-			}
-		}
-
-		// Pipeline filtering
-		if options.PipelineOnly && !isPipelineCommand(doc) {
+		// Platform and pipeline filtering (--platform, --no-cross-platform, --all-platforms)
+		if !db.passesFilters(doc, currentPlatform, options) {
 			continue
 		}
 
